@@ -321,6 +321,10 @@ def interpret(e: dict, pkg, schema, snake: bool, root_kind: Optional[str] = None
         obj = member                                   # class-level shared object
     else:
         if not callable(member):
+            if e["args"]:
+                # the schema gives this field arguments but the generated API offers no way to pass them
+                raise BuilderRaised("%s.%s is generated as a plain attribute although the field takes arguments %s" % (
+                    holder.__name__, attr, sorted(e["args"])))
             raise Unresolvable("%s.%s is not a method" % (holder.__name__, attr))
         import inspect
         try:
